@@ -10,6 +10,7 @@ import (
 	"sort"
 	"strings"
 
+	"github.com/elastos/Elastos.ELA/core/types/interfaces"
 	"github.com/elastos/Elastos.ELA/dpos/state"
 
 	"verif/kit"
@@ -30,7 +31,7 @@ func init() {
 		Shards: func(tier string) int { return 8 },
 		Run:    runC21,
 		Require: []string{"histories", "blocks_processed", "rollback_compares", "rollback_compares_equal", "reorg_rollbacks", "reorg_same_blocks", "reorg_new_blocks",
-			"forward_checks", "forward_checks_equal", "descent_steps", "replay_determinism_checks", "pow_cycle_completed", "pow_cycle_descents_across_rebase",
+			"forward_checks", "forward_checks_equal", "descent_steps", "replay_determinism_checks", "pow_cycle_completed", "pow_cycle_descents_across_rebase", "inactive_producer_cancelled_then_rolled_back", "special_payload_on_producer_changed_by_tip_then_rolled_back",
 			"tx_register_v1", "tx_register_v2", "tx_update", "tx_cancel", "tx_activate", "tx_vote_v1", "tx_cancel_vote_v1", "tx_deposit_topup", "tx_return_deposit",
 			"tx_exchange_votes", "tx_voting", "tx_voting_renewal", "tx_return_votes", "tx_illegal", "tx_revert_to_pow", "tx_revert_to_dpos", "tx_next_turn_dpos_info",
 			"blocks_with_confirm", "blocks_without_confirm", "blocks_in_pow_mode", "era_public_dpos", "era_new_cr", "era_dposv2_start", "histories_dposv2_active",
@@ -135,6 +136,19 @@ func c21StateLevel(c *kit.Ctx) {
 		}
 		h.cleanup()
 	}
+	// evidence script: one scripted history per shard (own PRNG stream)
+	{
+		re := c.Rand("c21-l1-evidence")
+		for k := 0; k < c.N(1, 4); k++ {
+			seed := re.Int63()
+			h := &c21Hist{c: c, seed: seed, profile: 3, idx: 3000 + k, evidence: true}
+			c.Begin("evidence-script history shard=%d seed=%d", c.Shard, seed)
+			if p, v, st := kit.Guard(h.run); p {
+				h.panicked(v, st)
+			}
+			h.cleanup()
+		}
+	}
 	// consensus-mode cycle: one scripted history per shard (its own PRNG stream,
 	// so that the other histories are unchanged)
 	{
@@ -217,6 +231,15 @@ type c21Hist struct {
 	// RevertToDPOS -> DPOS cycle in the new-CR era and ends 8..11 blocks after
 	// DPOS work resumed, so that the final stepwise descent crosses the block
 	// on which the irreversible height is re-based and advances again
+	// evidence: scripted history (new-CR era, nurtured) that (C) starves an
+	// arbiter until it is Inactive, lets it cancel while Inactive and rolls
+	// that block back; (D) registers a producer, and on the block that gives it
+	// the 6th confirmation (Pending -> Active) hands an InactiveArbitrators
+	// payload naming it to ProcessSpecialTxPayload on top of that tip, then
+	// rolls the tip back - compared with the direct state AND with a control
+	// twin that rolled the same block back without having seen the payload
+	evidence  bool
+	ev        c21EvScript
 	powCycle  bool
 	cycleDone bool
 	// a block preceded by a special payload has been rolled back since R was
@@ -471,6 +494,16 @@ func (h *c21Hist) run() {
 	if h.saveBoundary {
 		h.g.Quiet = h.s.RecordSponsor + 10
 	}
+	if h.evidence {
+		h.g.Nurture = true
+		h.g.NoSpontaneousPOW = true
+		h.ev.y = c21Owners - 1
+		h.g.Script.Hands = map[int]bool{h.ev.y: true}
+		if h.s.End < h.s.NewCR+90 {
+			h.s.End = h.s.NewCR + 90
+		}
+		c.Inc("evidence_script_histories")
+	}
 	if h.powCycle {
 		h.g.Nurture = true
 		h.g.CycleAt = h.s.NewCR + 3 + uint32(r.Intn(6))
@@ -545,6 +578,12 @@ func (h *c21Hist) run() {
 			}
 			continue
 		}
+		if h.evidence && ht >= h.s.NewCR {
+			if h.evidenceStep(ht, blk) {
+				break
+			}
+			continue
+		}
 		if h.powCycle && ht+10 >= h.g.CycleAt {
 			// no reorganisations around the scripted cycle; stop once DPOS has
 			// been working again for cycleExtra blocks
@@ -572,6 +611,229 @@ func (h *c21Hist) run() {
 		return
 	}
 	h.finalDescent()
+}
+
+type c21EvScript struct {
+	phase int
+	x, y  int
+	start uint32
+	regAt uint32
+	end   uint32
+}
+
+func hasOp(b *C21Block, op string) bool {
+	for _, o := range b.Ops {
+		if o == op {
+			return true
+		}
+	}
+	return false
+}
+
+// focusState describes where one producer lives: its state and the producer
+// maps that contain it ("<none>" if GetProducer would not find it).
+func (h *c21Hist) focusState(in *c21Inst, idx int) string {
+	k := fmt.Sprintf("%x", h.w.OwnerKey(idx))
+	a := in.arb
+	st := "<none>"
+	if p := a.GetProducerByOwnerPublicKey(h.w.OwnerKey(idx)); p != nil {
+		st = p.State().String()
+	}
+	maps := ""
+	for _, e := range []struct {
+		n string
+		m map[string]*state.Producer
+	}{{"Pending", a.PendingProducers}, {"Activity", a.ActivityProducers}, {"Inactive", a.InactiveProducers},
+		{"Canceled", a.CanceledProducers}, {"Illegal", a.IllegalProducers}, {"PendingCanceled", a.PendingCanceledProducers}} {
+		if p, ok := e.m[k]; ok {
+			maps += e.n + "(" + p.State().String() + ") "
+		}
+	}
+	return "found-as=" + st + " maps=[" + strings.TrimSpace(maps) + "]"
+}
+
+// focusRollback rolls the tip block back (depth 1) and judges the focus
+// producer idx: (a) against a fresh instance that processed only blocks < tip,
+// (b) if a payload is given (handed to ProcessSpecialTxPayload on top of the tip
+// before the rollback), also against a control twin that rolled the same block
+// back without the payload - any difference to the control is caused by the
+// out-of-band payload alone and gets its own signature family
+// "rollback-diff:special-payload-on-tip:<class>". Returns false if the scenario
+// had to be abandoned (R is unusable then).
+func (h *c21Hist) focusRollback(label string, idx int, pl interfaces.Payload) bool {
+	c := h.c
+	tip := h.R.tip
+	if h.R.arb.IsIrreversible(tip, 1) {
+		c.Inc("focus_refused_by_IsIrreversible")
+		return true
+	}
+	var ctl *c21Inst
+	if pl != nil {
+		ctl = h.replay(tip, nil)
+		var perr error
+		if p, v, _ := kit.Guard(func() { perr = h.R.arb.ProcessSpecialTxPayload(pl, tip) }); p || perr != nil {
+			c.Inc("focus_payload_rejected")
+			h.logf("focus %s: payload rejected: %v %v", label, v, perr)
+			h.drop(ctl)
+			return false
+		}
+		h.logf("focus %s: payload applied on tip %d: %s", label, tip, h.focusState(h.R, idx))
+	}
+	before := h.focusState(h.R, idx)
+	if err := h.R.rollbackTo(tip - 1); err != nil {
+		panic(err)
+	}
+	F := h.replay(tip-1, nil)
+	got, want := h.focusState(h.R, idx), h.focusState(F, idx)
+	h.logf("focus %s: tip %d before=%s after-rollback=%s direct=%s", label, tip, before, got, want)
+	c.Inc("focus_checks")
+	info := func(extra map[string]interface{}) map[string]interface{} {
+		m := map[string]interface{}{"history_seed": fmt.Sprint(h.seed), "script": "evidence", "tip": tip, "owner": idx,
+			"sched": h.s.String(), "blocks_rolled_back": h.opsBetween(tip, tip), "blocks_before": h.opsBetween(tip-6, tip-1)}
+		for k, v := range extra {
+			m[k] = v
+		}
+		return m
+	}
+	if got != want {
+		c21Violate(c, "rollback-diff:focus:"+label, fmt.Sprintf("block %d rolled back: producer of owner %d is %s, direct state has %s (before the rollback: %s)", tip, idx, got, want, before),
+			info(map[string]interface{}{"rolled_back": got, "direct": want}))
+	} else {
+		c.Inc("focus_checks_equal")
+	}
+	if ctl != nil {
+		if err := ctl.rollbackTo(tip - 1); err != nil {
+			panic(err)
+		}
+		cgot := h.focusState(ctl, idx)
+		if got != cgot {
+			c21Violate(c, "rollback-diff:focus:"+label+"-vs-control", fmt.Sprintf("block %d rolled back after an out-of-band payload naming owner %d: producer is %s; the control twin (same rollback, no payload) has %s", tip, idx, got, cgot),
+				info(map[string]interface{}{"rolled_back": got, "control": cgot}))
+		}
+		names, first := classesOf(h.compare(h.R, ctl))
+		for _, cl := range names {
+			sig := "rollback-diff:special-payload-on-tip:" + cl
+			if cl == "degradation.InactiveTxs" {
+				// the "payload already seen" set is never rolled back: known finding
+				sig = "rollback-diff:degradation.InactiveTxs"
+			}
+			ex := first[cl]
+			c21Violate(c, sig, fmt.Sprintf("payload handed to ProcessSpecialTxPayload on tip %d, tip rolled back: %s differs from the control twin that rolled back without the payload: %s | %s", tip, ex.Path, ex.A, ex.B),
+				info(map[string]interface{}{"all_classes": names}))
+		}
+		h.drop(ctl)
+	}
+	// the usual full comparison against the direct state
+	if ds := h.compare(h.R, F); len(ds) != 0 {
+		h.report("rollback-diff:", ds, tip, tip-1, true, "evidence script: "+label, h.era(tip, F))
+	}
+	h.drop(h.R)
+	h.R = F
+	h.rolled, h.rolledSpecial = false, false
+	if err := h.R.process(h.specs[tip]); err != nil {
+		panic(fmt.Sprintf("re-processing block %d rejected: %v", tip, err))
+	}
+	c.Inc("blocks_processed")
+	return true
+}
+
+// evidenceStep advances the evidence script after block ht has been connected.
+// It returns true when the history should end.
+func (h *c21Hist) evidenceStep(ht uint32, blk *C21Block) bool {
+	c, a, ev := h.c, h.R.arb, &h.ev
+	switch ev.phase {
+	case 0: // pick an Active DPoS-v1 producer that is a normal arbiter and starve it
+		if ht < h.s.NewCR+4 || a.ConsensusAlgorithm != state.DPOS || blk.Confirm == nil {
+			if ht > h.s.NewCR+40 {
+				c.Inc("evidence_script_no_arbiter_to_starve")
+				ev.phase = 3
+			}
+			return false
+		}
+		for _, ar := range a.GetArbitrators() {
+			if !ar.IsNormal {
+				continue
+			}
+			p := a.GetProducer(ar.NodePublicKey)
+			if p == nil || p.State() != state.Active || p.Identity() != state.DPoSV1 {
+				continue
+			}
+			for i := 0; i < c21Owners; i++ {
+				if string(h.w.OwnerKey(i)) == string(p.OwnerPublicKey()) {
+					ev.x, ev.start, ev.phase = i, ht, 1
+					h.g.Script.Starve = ar.NodePublicKey
+					h.g.Script.Hands[i] = true
+					h.logf("EVIDENCE: starving arbiter of owner %d from h=%d", i, ht)
+					return false
+				}
+			}
+		}
+		if ht > h.s.NewCR+40 {
+			c.Inc("evidence_script_no_arbiter_to_starve")
+			ev.phase = 3
+		}
+	case 1:
+		p := a.GetProducerByOwnerPublicKey(h.w.OwnerKey(ev.x))
+		if p != nil && p.State() == state.Inactive {
+			c.Inc("evidence_script_producer_inactive")
+			h.g.Script.Starve = nil
+			h.g.Script.ForceCancel = ev.x + 1
+			ev.phase = 2
+		} else if ht > ev.start+40 || p == nil || p.State() != state.Active {
+			c.Inc("evidence_script_starve_failed")
+			h.g.Script.Starve = nil
+			ev.phase = 3
+		}
+	case 2:
+		if hasOp(blk, "cancel_from_Inactive") {
+			if !h.focusRollback("inactive-producer-cancel", ev.x, nil) {
+				return true
+			}
+			c.Inc("inactive_producer_cancelled_then_rolled_back")
+			ev.phase = 3
+		} else if ht > ev.start+60 {
+			c.Inc("evidence_script_cancel_failed")
+			h.g.Script.ForceCancel = 0
+			ev.phase = 3
+		}
+	case 3: // register the reserved owner
+		h.g.Script.ForceRegister = ev.y + 1
+		ev.start = ht
+		ev.phase = 4
+	case 4:
+		if p := a.GetProducerByOwnerPublicKey(h.w.OwnerKey(ev.y)); p != nil {
+			ev.regAt = p.RegisterHeight()
+			ev.phase = 5
+		} else if ht > ev.start+10 {
+			c.Inc("evidence_script_register_failed")
+			ev.phase, ev.end = 6, ht+2
+		}
+	case 5:
+		if ht < ev.regAt+state.ActivateDuration-1 {
+			return false
+		}
+		p := a.GetProducerByOwnerPublicKey(h.w.OwnerKey(ev.y))
+		crc := a.GetCRCArbiters()
+		if ht == ev.regAt+state.ActivateDuration-1 && p != nil && p.State() == state.Active && len(crc) > 0 {
+			sponsor := crc[0].NodePublicKey
+			for _, x := range crc { // deterministic choice: smallest key
+				if string(x.NodePublicKey) < string(sponsor) {
+					sponsor = x.NodePublicKey
+				}
+			}
+			pl := h.w.InactiveArbitratorsPayload(ht, sponsor, [][]byte{p.NodePublicKey()})
+			if !h.focusRollback("special-payload-on-producer-changed-by-tip", ev.y, pl) {
+				return true
+			}
+			c.Inc("special_payload_on_producer_changed_by_tip_then_rolled_back")
+		} else {
+			c.Inc("evidence_script_activation_not_seen")
+		}
+		ev.phase, ev.end = 6, ht+3
+	case 6:
+		return ht >= ev.end
+	}
+	return false
 }
 
 func (h *c21Hist) eraCounters(ht uint32) {
